@@ -28,6 +28,10 @@ func TestC08(t *testing.T) {
 	})
 }
 
+// c08Keys remembers, per worker process, every traffic key seen so far: two
+// sessions must never end up with the same key.
+var c08Keys = map[[32]byte]string{}
+
 type kn struct {
 	key   [32]byte
 	nonce uint64
@@ -82,6 +86,13 @@ func runC08(c *mon.Case) {
 	a.lastWKey, a.lastRKey = hs.C.M.VerifSnapshot().SendKey, hs.S.M.VerifSnapshot().RecvKey
 	b.lastWKey, b.lastRKey = hs.S.M.VerifSnapshot().SendKey, hs.C.M.VerifSnapshot().RecvKey
 	registry := map[kn]string{}
+	sessionID := fmt.Sprintf("session %d", c.Idx)
+	for _, k := range [][32]byte{a.lastWKey, b.lastWKey} {
+		if prev, ok := c08Keys[k]; ok && prev != sessionID {
+			c.Shard.Violate("key-shared-across-sessions", fmt.Sprintf("%s derived a traffic key that %s (different static keys, different passphrase) had already derived", sessionID, prev), rep)
+		}
+		c08Keys[k] = sessionID
+	}
 	var markers [][]byte
 	markers = append(markers, auth)
 	fail := func(key, desc string) {
